@@ -130,4 +130,13 @@ def main(argv=None):
 
 
 if __name__ == "__main__":
-    sys.exit(main())
+    try:
+        rc = main()
+    except SystemExit:
+        raise
+    except BaseException as e:      # a crash of the machinery is an engine error (exit 3), never exit 1
+        import traceback
+        traceback.print_exc()
+        print("ENGINE-ERROR: %s" % json.dumps(dict(kind="crash", exc=type(e).__name__, msg=str(e)[:500])))
+        rc = chx.EXIT_ENGINE
+    sys.exit(rc)
